@@ -2,7 +2,7 @@ import numpy as np
 from glue.core import Data
 from glue.core.exceptions import IncompatibleAttribute, IncompatibleDataException
 from glue.core.component import DaskComponent
-from glue.core.coordinate_helpers import dependent_axes
+from glue.core.coordinate_helpers import dependent_axes, pixel2world_single_axis
 from glue.utils import unbroadcast, broadcast_arrays_minimal
 
 # TODO: cache needs to be updated when links are removed/changed
@@ -58,7 +58,13 @@ def translate_pixel(data, pixel_coords, target_cid):
                 comp = data.get_component(target_cid)
             else:
                 comp = data._world_components[target_cid]
-            return comp._calculate(view=pixel_coords), dependent_axes(data.coords, comp.axis)
+            # The pixel coordinates are positions (they can be fractional,
+            # negative or beyond the edge of the data), not array indices, so
+            # we convert them directly rather than using them as a view
+            world_axis = data.ndim - 1 - comp.axis
+            pixel_arrays = [np.asarray(p) for p in pixel_coords]
+            return (pixel2world_single_axis(data.coords, *pixel_arrays[::-1], world_axis=world_axis),
+                    dependent_axes(data.coords, comp.axis))
         else:
             raise IncompatibleAttribute(target_cid)
 
